@@ -134,6 +134,8 @@ impl GenerationPass for AvailableValuePass {
         let mut visited = HashSet::new();
         #[cfg(rva_verif)]
         crate::verif_hooks::begin("available");
+        #[cfg(rva_verif)]
+        crate::verif_hooks::pass_begin("available", cfg);
         // Nodes that may start from "no values known" although they have
         // predecessors (see below)
         let mut roots: Vec<Rc<crate::cfg::CfgNode>> = Vec::new();
@@ -153,6 +155,8 @@ impl GenerationPass for AvailableValuePass {
                     && !roots.iter().any(|x| Rc::ptr_eq(x, &node))
                 {
                     waiting.get_or_insert(Rc::clone(&node));
+                    #[cfg(rva_verif)]
+                    crate::verif_hooks::visit("available", &node, true, changed);
                     continue;
                 }
 
@@ -270,16 +274,26 @@ impl GenerationPass for AvailableValuePass {
                 // even if its own values are the ones it already had (from an
                 // earlier run of this pass).
                 changed |= visited.insert(Rc::clone(&node));
+                #[cfg(rva_verif)]
+                crate::verif_hooks::visit("available", &node, false, changed);
             }
             // Loops that cannot be reached from anywhere else (dead code) never
             // get a visited predecessor: once everything else has settled, let
             // the first waiting node start from "no values known".
+            #[cfg(rva_verif)]
+            let mut promoted = None;
             if !changed {
                 if let Some(node) = waiting {
+                    #[cfg(rva_verif)]
+                    {
+                        promoted = Some(Rc::clone(&node));
+                    }
                     roots.push(node);
                     changed = true;
                 }
             }
+            #[cfg(rva_verif)]
+            crate::verif_hooks::sweep_end("available", promoted.as_deref(), changed);
         }
         Ok(())
     }
